@@ -39,7 +39,13 @@ func init() {
 		"(*strings.Builder).copyCheck":         func(in *Interp, fn *ssa.Function, a []Value) Value { return nil },
 		"unsafe.String":                        iUnsafeString,
 		"strings.Clone":                        func(in *Interp, fn *ssa.Function, a []Value) Value { return a[0] },
-		"(*sync.RWMutex).Lock":                 iMutexLock,
+		"(*sync.RWMutex).Lock":                 iRWLock,
+		"(*sync.Pool).Get":                     iPoolGet,
+		"(*sync.Pool).Put":                     iPoolPut,
+		"(*sync.Map).Load":                     iSyncMapLoad,
+		"(*sync.Map).Store":                    iSyncMapStore,
+		"(*sync.Map).LoadOrStore":              iSyncMapLoadOrStore,
+		"(*sync.Map).Delete":                   iSyncMapDelete,
 		"(*sync.RWMutex).Unlock":               iMutexUnlock,
 		"(*sync.RWMutex).RLock":                iRLock,
 		"(*sync.RWMutex).RUnlock":              iRUnlock,
@@ -172,11 +178,153 @@ func iUnsafeString(in *Interp, fn *ssa.Function, a []Value) Value {
 	return nil
 }
 
-// RWMutex: readers are modelled as exclusive holders too (sound for mutual exclusion with writers;
-// reader/reader concurrency is not explored)
-func iRLock(in *Interp, fn *ssa.Function, a []Value) Value { return iMutexLock(in, fn, a) }
+// RWMutex readers: any number may hold the lock together; a writer excludes them all.
+func iRLock(in *Interp, fn *ssa.Function, a []Value) Value {
+	p := a[0].(PtrV)
+	if p.isNil() {
+		in.goPanicf("runtime error: invalid memory address or nil pointer dereference (nil mutex)")
+	}
+	key := in.mutexKey(p)
+	if in.sched != nil {
+		in.yield()
+		in.blockOn(key) // waits while a writer holds it
+	} else if in.heldMutex[key] {
+		panic(goPanic{msg: "fatal error: all goroutines are asleep - deadlock! (RLock of a write-locked mutex in a sequential run)", fn: "(*sync.RWMutex).RLock"})
+	}
+	in.readers[key]++
+	in.logEvent("racq", p)
+	return nil
+}
 
-func iRUnlock(in *Interp, fn *ssa.Function, a []Value) Value { return iMutexUnlock(in, fn, a) }
+func iRUnlock(in *Interp, fn *ssa.Function, a []Value) Value {
+	p := a[0].(PtrV)
+	key := in.mutexKey(p)
+	if in.readers[key] == 0 {
+		panic(goPanic{msg: "fatal error: sync: RUnlock of unlocked RWMutex", fn: "(*sync.RWMutex).RUnlock"})
+	}
+	in.logEvent("rrel", p)
+	in.readers[key]--
+	if in.sched != nil {
+		in.yield()
+	}
+	return nil
+}
+
+func iRWLock(in *Interp, fn *ssa.Function, a []Value) Value {
+	p := a[0].(PtrV)
+	if p.isNil() {
+		in.goPanicf("runtime error: invalid memory address or nil pointer dereference (nil mutex)")
+	}
+	key := in.mutexKey(p)
+	if in.sched != nil {
+		in.yield()
+		for in.heldMutex[key] || in.readers[key] > 0 {
+			in.heldMutex[key+"#w"] = true // a writer waits for the readers as for a lock
+			in.blockOnCond(func() bool { return !in.heldMutex[key] && in.readers[key] == 0 })
+			delete(in.heldMutex, key+"#w")
+		}
+	} else if in.heldMutex[key] || in.readers[key] > 0 {
+		panic(goPanic{msg: "fatal error: all goroutines are asleep - deadlock!", fn: "(*sync.RWMutex).Lock"})
+	}
+	in.heldMutex[key] = true
+	in.logEvent("acq", p)
+	return nil
+}
+
+// sync.Pool: Get hands back the most recently Put value, else New() (one of the behaviours the
+// real pool may show; it may also drop items).
+func iPoolGet(in *Interp, fn *ssa.Function, a []Value) Value {
+	p := a[0].(PtrV)
+	key := in.mutexKey(p)
+	in.yield()
+	if l := in.pools[key]; len(l) > 0 {
+		v := l[len(l)-1]
+		in.pools[key] = l[:len(l)-1]
+		return v
+	}
+	st := p.load().(*StructV)
+	if newf, ok := st.f[len(st.f)-1].(FuncV); ok && newf.fn != nil {
+		return in.callFn(newf.fn, nil, newf.env)
+	}
+	return IfaceV{}
+}
+
+func iPoolPut(in *Interp, fn *ssa.Function, a []Value) Value {
+	p := a[0].(PtrV)
+	key := in.mutexKey(p)
+	in.yield()
+	if v, ok := a[1].(IfaceV); ok && v.t != nil {
+		in.pools[key] = append(in.pools[key], v)
+	}
+	return nil
+}
+
+// sync.Map: an association list kept by the engine per map object; every operation is atomic and a
+// scheduling point.
+func (in *Interp) syncMap(p PtrV) *MapV {
+	key := "syncmap:" + in.mutexKey(p)
+	if m, ok := in.syncMaps[key]; ok {
+		return m
+	}
+	in.nextMap++
+	m := &MapV{id: in.nextMap}
+	if in.syncMaps == nil {
+		in.syncMaps = map[string]*MapV{}
+	}
+	in.syncMaps[key] = m
+	return m
+}
+
+func (in *Interp) syncMapFind(m *MapV, k Value) int {
+	for i, ek := range m.keys {
+		if in.branch(in.valueEq(ek, k)) {
+			return i
+		}
+	}
+	return -1
+}
+
+func iSyncMapLoad(in *Interp, fn *ssa.Function, a []Value) Value {
+	in.yield()
+	m := in.syncMap(a[0].(PtrV))
+	if i := in.syncMapFind(m, a[1]); i >= 0 {
+		return TupleV{m.vals[i], in.tt.tT}
+	}
+	return TupleV{IfaceV{}, in.tt.tF}
+}
+
+func iSyncMapStore(in *Interp, fn *ssa.Function, a []Value) Value {
+	in.yield()
+	m := in.syncMap(a[0].(PtrV))
+	if i := in.syncMapFind(m, a[1]); i >= 0 {
+		m.vals[i] = a[2]
+		return nil
+	}
+	m.keys = append(m.keys, a[1])
+	m.vals = append(m.vals, a[2])
+	return nil
+}
+
+func iSyncMapLoadOrStore(in *Interp, fn *ssa.Function, a []Value) Value {
+	in.yield()
+	m := in.syncMap(a[0].(PtrV))
+	if i := in.syncMapFind(m, a[1]); i >= 0 {
+		return TupleV{m.vals[i], in.tt.tT}
+	}
+	m.keys = append(m.keys, a[1])
+	m.vals = append(m.vals, a[2])
+	return TupleV{a[2], in.tt.tF}
+}
+
+func iSyncMapDelete(in *Interp, fn *ssa.Function, a []Value) Value {
+	in.yield()
+	m := in.syncMap(a[0].(PtrV))
+	if i := in.syncMapFind(m, a[1]); i >= 0 {
+		m.keys = append(m.keys[:i:i], m.keys[i+1:]...)
+		m.vals = append(m.vals[:i:i], m.vals[i+1:]...)
+	}
+	return nil
+}
 
 // sync.Once{done atomic.Uint32 / uint32; m Mutex}: Do runs f at most once; modelled as a critical
 // section on the Once object (sound for race analysis: all Do calls are mutually ordered).
